@@ -145,8 +145,56 @@ def mop_lit(o):
     raise ValueError(k)
 
 
+def _fdesc(fd):
+    return ("(fd %s %s %s %s %s %s %s)" % (
+        cstr(fd["name"]), _strs(fd["outs"]), clist([cpair(cstr(c), cstr(o)) for c, o in fd["params"]]),
+        _alist(list(fd["sigd"].items())), _alist(list(fd["defs"].items())), _alist(list(fd["bound"].items())),
+        cbool(bool(fd.get("cached", False)))))
+
+
+def aop_lit(o):
+    k = o["op"]
+    if k == "copy":
+        return "ACopy"
+    if k == "pickle":
+        return "APickle"
+    if k == "join":
+        return f"(AJoin {clist([_fdesc(f) for f in o['q']['funcs']])})"
+    if k == "simplify":
+        return f"(ASimplify {cstr(o['o'])} {cbool(o['cons'])})"
+    if k == "split":
+        return f"(ASplit {cstr(o['o'])})"
+    if k == "rename":
+        return f"(ARename {_alist(o['r'])})"
+    if k == "scope":
+        return f"(AScope {copt(o['s'], cstr)} {_sel(o['ins'])} {_sel(o['outs'])} {_strs(o.get('excl') or [])})"
+    if k == "nest":
+        new = o.get("new")
+        return f"(ANest {_strs(o['names'])} {'None' if new is None else '(Some ' + _strs(new) + ')'})"
+    raise ValueError(k)
+
+
+def amut_lit(m):
+    k = m["m"]
+    if k == "defaults":
+        return f"(MDefaults {_alist(m['d'])})"
+    if k == "bound":
+        return f"(MBound {cstr(m['o'])} {_alist(m['b'])})"
+    if k == "renames":
+        return f"(MRenames {_alist(m['r'])})"
+    if k == "drop":
+        return f"(MDrop {cstr(m['o'])})"
+    raise ValueError(k)
+
+
 def emit_case(c) -> str:
     k = c["kind"]
+    if k == "alias":
+        def call(x):
+            return cpair(cstr(x[0]), _alist(x[1]))
+        return ("(CAlias %s %s %s %s %s %s)" % (
+            clist([_fdesc(f) for f in c["p"]["funcs"]]), aop_lit(c["rw"]), cbool(c["side"]), amut_lit(c["mut"]),
+            call(c["callA"]), call(c["callB"])))
     if k == "rewrite":
         return (f"(CRewrite {pipegen.pipeline_lit(c['p'])} {clist([op_lit(o) for o in c['ops']])} "
                 f"{clist([call_lit(x) for x in c['calls']])})")
@@ -310,7 +358,71 @@ def run_impl(c):
             return [status, structs, obs]
         if k == "map":
             return _run_map_case(c)
+        if k == "alias":
+            return _run_alias_case(c)
     raise ValueError(k)
+
+
+NEW_PIPELINE_OPS = ("copy", "pickle", "join", "simplify", "split")
+
+
+def alias_state(pl, call):
+    fs = []
+    for f in pl.functions:
+        fs.append([list(_tup(f)), list(f.parameters),
+                   sorted([k, canon(v)] for k, v in f.defaults.items()),
+                   sorted([k, canon(v)] for k, v in f._bound.items()),
+                   sorted([k, v] for k, v in f._renames.items() if k != v),
+                   "None" if f.mapspec is None else str(f.mapspec),
+                   sorted(prim_names(f))])
+    r = _res(lambda: pl(call[0], **dict(call[1])))
+    if isinstance(r, Ok):
+        r = Ok(canon(r.v))
+    return [sorted(fs, key=lambda e: e[0]), r]
+
+
+def apply_mut(pl, m):
+    k = m["m"]
+    if k == "defaults":
+        pl.update_defaults(dict(m["d"]))
+    elif k == "bound":
+        pl[m["o"]].update_bound(dict(m["b"]))
+    elif k == "renames":
+        pl.update_renames(dict(m["r"]))
+    elif k == "drop":
+        pl.drop(output_name=m["o"])
+    else:
+        raise ValueError(k)
+
+
+def _alias_setup(c):
+    """Returns (A, B) after the rewrite, and the state of A before it."""
+    P = pipegen.build(c["p"]).pipeline
+    if c["rw"]["op"] in NEW_PIPELINE_OPS:
+        A = P
+        a0 = alias_state(A, c["callA"])
+        B = apply_op(P, c["rw"])
+    else:
+        A = P.copy()
+        a0 = alias_state(A, c["callA"])
+        B = apply_op(P, c["rw"])
+    return A, B, a0
+
+
+def _run_alias_case(c):
+    try:
+        A, B, a0 = _alias_setup(c)
+    except Exception as e:  # noqa: BLE001
+        return [Err(e), [], [], [], []]
+    a1 = alias_state(A, c["callA"])
+    X, Y, cy = (A, B, c["callB"]) if c["side"] else (B, A, c["callA"])
+    y0 = alias_state(Y, cy)
+    try:
+        apply_mut(X, c["mut"])
+    except Exception as e:  # noqa: BLE001
+        return [Err(e), a0, a1, y0, []]
+    y1 = alias_state(Y, cy)
+    return [["ok"], a0, a1, y0, y1]
 
 
 def _specs_obs(pl, order):
@@ -741,6 +853,94 @@ def gen_map_case(rng, tier):
     return {"kind": "map", "req": rq, "mop": mop, "inputs1": inputs1, "variants": variants}
 
 
+def _root_call(rng, pl):
+    outs = sorted(pl.all_output_names)
+    rng.shuffle(outs)
+    for o in outs:
+        try:
+            ra = list(pl.root_args(o))
+            return [o, [[n, pipegen.value_for(rng, n)] for n in ra]]
+        except Exception:  # noqa: BLE001
+            continue
+    return [outs[0], []]
+
+
+def _gen_mut(rng, X):
+    """A mutation of pipeline X that pipefunc accepts."""
+    fs = list(X.functions)
+    for _ in range(10):
+        k = rng.choice(["defaults", "bound", "renames", "drop"])
+        if k == "defaults":
+            cand = sorted({a for f in fs for a in f.parameters if a not in f._bound})
+            if cand:
+                n = rng.choice(cand)
+                m = {"m": "defaults", "d": [[n, "ND_" + n.replace(".", "_")]]}
+            else:
+                continue
+        elif k == "bound":
+            f = rng.choice(fs)
+            cand = [a for a in f.parameters if a not in f._defaults]
+            if not cand:
+                continue
+            n = rng.choice(cand)
+            m = {"m": "bound", "o": rng.choice(_tup(f)), "b": [[n, "NB_" + n.replace(".", "_")]]}
+        elif k == "renames":
+            names = _names(X)
+            ks = rng.sample(names, rng.randint(1, min(2, len(names))))
+            m = {"m": "renames", "r": [[n, f"m{j}_" + n.replace(".", "_")] for j, n in enumerate(ks)]}
+        else:
+            m = {"m": "drop", "o": rng.choice(sorted(X.all_output_names))}
+        return m
+    return {"m": "drop", "o": sorted(X.all_output_names)[0]}
+
+
+def gen_alias_case(rng, tier):
+    pd = pipegen.gen_pipeline(rng, nmax=4, nmin=2)
+    with _quiet(), warnings.catch_warnings():
+        warnings.simplefilter("ignore")
+        try:
+            P = pipegen.build(pd).pipeline
+        except Exception:  # noqa: BLE001
+            return None
+        rw = None
+        for _ in range(10):
+            o = _gen_op(rng, P, 0)
+            if o["op"] == "rename" and any(k == "unused_key" for k, _ in o["r"]):
+                continue
+            r = _op_renaming(P, o)
+            cur = _names(P)
+            if len({r.get(n, n) for n in cur}) != len(cur):
+                continue
+            try:
+                apply_op(P.copy(), o)
+                rw = o
+                break
+            except Exception:  # noqa: BLE001
+                continue
+        if rw is None:
+            rw = {"op": "copy"}
+        c = {"kind": "alias", "p": pd, "rw": rw, "side": rng.random() < 0.5}
+        c["callA"] = _root_call(rng, P)
+        try:
+            B = apply_op(P.copy() if rw["op"] not in NEW_PIPELINE_OPS else P, rw)
+            c["callB"] = _root_call(rng, B)
+            X = P if c["side"] else B           # same names as the side that will be mutated
+            for _ in range(6):
+                m = _gen_mut(rng, X)
+                try:
+                    Xc = X.copy()
+                    apply_mut(Xc, m)
+                    c["mut"] = m
+                    break
+                except Exception:  # noqa: BLE001
+                    continue
+            else:
+                return None
+        except Exception:  # noqa: BLE001
+            return None
+    return c
+
+
 def generate(rng, tier, mult):
     n = (220 if tier == "quick" else 5000) * mult
     nm = (70 if tier == "quick" else 1500) * mult
@@ -753,11 +953,20 @@ def generate(rng, tier, mult):
         warnings.simplefilter("ignore")
         for _ in range(nm):
             cases.append(gen_map_case(rng, tier))
+    na = (120 if tier == "quick" else 3000) * mult
+    k = 0
+    while k < na:
+        c = gen_alias_case(rng, tier)
+        if c is not None:
+            cases.append(c)
+            k += 1
     return cases
 
 
 # ------------------------------------------------------------------ evidence helpers
 def nontrivial_key(c):
+    if c["kind"] == "alias":
+        return ("alias", c["p"], c["rw"], c["side"], c["mut"])
     if c["kind"] == "map":
         if c["mop"]["op"] in ("copy", "pickle"):
             return None
@@ -771,6 +980,9 @@ def nontrivial_key(c):
 
 def distribution(c):
     d = {"kind": c["kind"]}
+    if c["kind"] == "alias":
+        d["alias_rw"] = c["rw"]["op"]
+        d["alias_mut"] = c["mut"]["m"] + ("@orig" if c["side"] else "@new")
     if c["kind"] == "map":
         d["mop"] = c["mop"]["op"]
         d["nvariants"] = len(c["variants"])
